@@ -234,6 +234,7 @@ void DocumentBuilder::proc_location_init(const char* name)
 void DocumentBuilder::proc_edge_begin(const char* from, const char* to, const bool control, const char* actname)
 {
     symbol_t fid, tid;
+    currentEdge = nullptr;  // labels of an edge that cannot be created must not land on the previous edge
 
     if (!resolve(from, fid) || (!fid.get_type().is_location() && !fid.get_type().is_branchpoint())) {
         handle_error(TypeException{"$No_such_location_or_branchpoint_(source)"});
@@ -253,7 +254,16 @@ void DocumentBuilder::proc_edge_begin(const char* from, const char* to, const bo
 
 void DocumentBuilder::proc_edge_end(const char* from, const char* to) { popFrame(); }
 
-void DocumentBuilder::proc_select(const char* id) { addSelectSymbolToFrame(id, currentEdge->select, position); }
+void DocumentBuilder::proc_select(const char* id)
+{
+    if (!currentEdge) {
+        // keep the type stack balanced: the select type was pushed by the grammar
+        typeFragments.pop();
+        handle_error(TypeException("Must be declared inside of an edge"));
+        return;
+    }
+    addSelectSymbolToFrame(id, currentEdge->select, position);
+}
 
 void DocumentBuilder::proc_guard()
 {
@@ -564,6 +574,7 @@ void DocumentBuilder::instance_name_end(const char* name, size_t arguments)
 void DocumentBuilder::proc_message(const char* from, const char* to, const int loc, const bool pch)
 {
     symbol_t fid, tid;
+    currentMessage = nullptr;  // a label of a message that cannot be created must not land on the previous one
     if (!resolve(from, fid) || !fid.get_type().is_instance_line()) {
         handle_error(TypeException{"$No_such_instance_line_(source)"});
     } else if (!resolve(to, tid) || !tid.get_type().is_instance_line()) {
@@ -588,6 +599,7 @@ void DocumentBuilder::proc_condition(const vector<string>& anchors, const int lo
     vector<symbol_t> v_anchorid;
     bool error = false;
     bool isHot = hot;
+    currentCondition = nullptr;  // see proc_message
 
     for (const auto& anchor : anchors) {
         symbol_t anchorid;
@@ -621,6 +633,7 @@ void DocumentBuilder::proc_condition()
 void DocumentBuilder::proc_LSC_update(const char* anchor, const int loc, const bool pch)
 {
     symbol_t anchorid;
+    currentUpdate = nullptr;  // see proc_message
 
     if (!resolve(anchor, anchorid) || !anchorid.get_type().is_instance_line()) {
         handle_error(TypeException{"$No_such_instance_line_(anchor)"});
